@@ -25,7 +25,7 @@ from mc.ref import contract as R
 
 ID = "C17"
 LEVEL = "exploration"
-BUDGET = {"quick": 300, "thorough": 900}
+BUDGET = {"quick": 300, "thorough": 3600}
 CHUNK = 4
 RULE = (
     "datasets: one case = (base variant, shape) with every single edit (level 1) or every pair of edits (level 2) "
